@@ -13,7 +13,7 @@ import sys
 
 from ..common import leanio, rtlgen
 from ..common.leanio import InfraError
-from . import c02_methods
+from . import c02_methods, c02_gendag
 
 PID = 'C02'
 DRIVERS = ['rtl']
@@ -50,6 +50,15 @@ def pregen(ck):
   mod = importlib.util.module_from_spec(spec); spec.loader.exec_module(mod)
   return mod.pregen()
 # ---- end: translator-based tie
+# ---- begin: value-constraint model (Model/GenDag.lean, Props/C02d.lean, harness/checks/c02_gendag.py)
+DRIVERS = DRIVERS + c02_gendag.DRIVERS
+MODULE = MODULE + [c02_gendag.MODULE]
+THEOREMS = THEOREMS + c02_gendag.THEOREMS
+THEOREM_MODULE.update({t: c02_gendag.MODULE for t in c02_gendag.THEOREMS})
+TRUSTED = TRUSTED + c02_gendag.TRUSTED
+ASSUMPTIONS = ASSUMPTIONS + c02_gendag.ASSUMPTIONS
+RULE = RULE + '; ' + c02_gendag.RULE
+# ---- end: value-constraint model
 
 FLOWS = ['default', 'simple', 'heutopo', 'mamba', 'unroll']
 
@@ -273,8 +282,10 @@ def run(ck):
     process_explicit(ck, d, kind, info)
   ck.extra_cov['plain_designs'] = n
   ck.extra_cov['explicit_designs'] = made
+  c02_gendag.run(ck)
 
 def replay(ck, data):
   print(data.get('kind'), data.get('signature')); print(str(data.get('detail'))[:1500])
+  if (data.get('case') or {}).get('gendag'): return c02_gendag.replay(ck, data['case'])
   if (data.get('case') or {}).get('methods'): return c02_methods.replay(ck, data['case'])
   return rtlgen.replay_source(ck, data.get('case') or {})
